@@ -337,7 +337,7 @@ def check_C09(tier):
         step = 16 if quick else 1
         pairs = [(c, 0) for c in range(0, 65536, step)] + [(0, c) for c in range(0, 65536, step)] + \
                 [(c, c) for c in range(0, 65536, step * 4)]
-        pairs += [(rng.randrange(65536), rng.randrange(65536)) for _ in range(20000 if quick else 10**6)]
+        pairs += [(rng.randrange(65536), rng.randrange(65536)) for _ in range(20000 if quick else 200000)]
         pairs += [(rng.randrange(1100), rng.randrange(1100)) for _ in range(5000)]
         calls = G.merge_calls(cf, pairs)
         for i in range(0, len(calls), 4096):
